@@ -15,9 +15,15 @@ PropVerdict(r) ==
   \* under PREFER_DATES_FROM past / future a stated two-digit year is still pivoted by the clock: the clock-freedom
   \* clauses are judged for the default preference, and for every preference when the string is known to write its
   \* year (if any) with four digits (r.y4); "strictness only filters" holds for every preference
-  IF \E o \in {r.outN, r.outS, r.outS2, r.outR, r.outR2} : o # None /\ IsExc(o) THEN "exception"
+  IF \E o \in {r.outN, r.outS, r.outS2, r.outR, r.outR2, r.outSR, r.outSR2} : o # None /\ IsExc(o) THEN "exception"
   ELSE IF ~StrictFilters(r.outN, r.outS) THEN "strict-changed-result"
   ELSE IF (r.pdf = "current_period" \/ r.y4) /\ ~ClockFree(r.outS, r.outS2) THEN "strict-result-depends-on-reference-time"
+  \* STRICT_PARSING switched on NEXT TO a REQUIRE_PARTS list (outSR, outSR2): it still only filters, its results are still
+  \* free of the reference time and still state every part - a list of required parts never weakens it
+  ELSE IF ~StrictFilters(r.outR, r.outSR) THEN "strict-changed-result-next-to-require-parts"
+  ELSE IF (r.pdf = "current_period" \/ r.y4) /\ ~ClockFree(r.outSR, r.outSR2) THEN "strict-result-depends-on-reference-time-next-to-require-parts"
+  ELSE IF r.gen /\ ~StatesAll(r.outSR, ps) THEN "strict-result-without-all-parts-next-to-require-parts"
+  ELSE IF r.maxparts < 3 /\ r.outSR # None /\ r.dorder \notin {"YMD", "YDM"} THEN "strict-result-without-all-parts-next-to-require-parts"
   ELSE IF ~RequireFilters(r.outN, r.outR) THEN "require-parts-changed-result"
   \* (r.conv: the result is re-expressed in another zone (TO_TIMEZONE) - a part the string leaves open and that is NOT required,
   \* say the day of 'March 2015', comes from the reference and can carry the converted instant across a month end; the
